@@ -885,6 +885,18 @@ def inline_module_helpers(repo, rel, func, depth=2, methods=False, keep=()):
                         if not hasattr(x, "lineno") or True:
                             ast.copy_location(x, st)
                 out.extend(pre)
+                if pre and isinstance(st, ast.Assign) and len(
+                        st.targets) == 1 and isinstance(
+                        st.targets[0], ast.Tuple) and isinstance(
+                        st.value, ast.Tuple) and len(
+                        st.targets[0].elts) == len(st.value.elts) and all(
+                        isinstance(x, (ast.Name, ast.Constant))
+                        for x in st.value.elts):
+                    # a, b = helper(..)  ->  a = <ret 0>; b = <ret 1>
+                    for t, v in zip(st.targets[0].elts, st.value.elts):
+                        out.append(ast.copy_location(ast.Assign(
+                            targets=[t], value=v), st))
+                    continue
             out.append(st)
         return out
     new.body = process(new.body, 0)
